@@ -176,15 +176,19 @@ PLANS["C16"] = {
 
 PLANS["C15"] = {
     "title": "equivalent formulations of an LP receive equivalent answers",
-    "rule": ("state = a formulation reachable from a base LP by composing transformations from a fixed alphabet of 20 (row/column permutations, row scaling by 2, 1/3, -1 with sense flip, "
-             "column scaling, column shifts, objective negation with min/max flip, row duplication, redundant row, equality split); breadth-first to the stated depth; every formulation is solved "
-             "with QSexact_solver and status and back-transformed optimum are compared with the base formulation's (and with the reference truth for the small family). Base LPs: the enumerated small "
+    "rule": ("state = a formulation reachable from a base LP by composing transformations from a fixed alphabet of 22 (row/column permutations, row scaling by 2, 1/3, -1 with sense flip, "
+             "column scaling, negation of one / of all columns with mirrored bounds, column shifts, objective negation with min/max flip, row duplication, redundant row, equality split); breadth-first to the stated depth; every formulation is solved "
+             "with QSexact_solver (dual start; the -primal runs use the primal start for base and transformed formulation alike) and status and back-transformed optimum are compared with the base formulation's (and with the reference truth for the small family). Base LPs: the enumerated small "
              "family and a deterministic catalogue of 24 structured LPs (transportation, staircase with ranged rows, dense block + singleton rows, set-cover relaxation, potentials with free columns, "
              "degenerate assignment) x {60,150,300,450} rows (up to 2497 columns). non-trivial = base LP with rows and a finite optimum"),
     "quick": [fam("meta-S0q1-d1", "prodl1", "meta", {"fam": "S0q1", "depth": 1}, weight=2, crash_props=["C17", "C15"], timeout=900),
-              fam("meta-CAT-d1", "prod", "meta", {"fam": "CAT", "depth": 1}, weight=3, crash_props=["C17", "C15"], timeout=900)],
+              fam("meta-CAT-d1", "prod", "meta", {"fam": "CAT", "depth": 1}, weight=3, crash_props=["C17", "C15"], timeout=900),
+              fam("meta-S0q1-d1-primal", "prodl1", "meta", {"fam": "S0q1", "depth": 1, "algo": "primal"}, weight=2, crash_props=["C17", "C15"], timeout=900),
+              fam("meta-CAT-d1-primal", "prod", "meta", {"fam": "CAT", "depth": 1, "algo": "primal"}, weight=3, crash_props=["C17", "C15"], timeout=900)],
     "thorough": [fam("meta-S0q-d2", "prodl1", "meta", {"fam": "S0q", "depth": 2}, weight=10, crash_props=["C17", "C15"], timeout=900),
-                 fam("meta-CAT-d2", "prod", "meta", {"fam": "CAT", "depth": 2}, weight=6, crash_props=["C17", "C15"], timeout=900)],
+                 fam("meta-CAT-d2", "prod", "meta", {"fam": "CAT", "depth": 2}, weight=6, crash_props=["C17", "C15"], timeout=900),
+                 fam("meta-S0q1-d2-primal", "prodl1", "meta", {"fam": "S0q1", "depth": 2, "algo": "primal"}, weight=6, crash_props=["C17", "C15"], timeout=900),
+                 fam("meta-CAT-d2-primal", "prod", "meta", {"fam": "CAT", "depth": 2, "algo": "primal"}, weight=6, crash_props=["C17", "C15"], timeout=900)],
     "bounds": {"quick": "depth 1 from every LP of S0q1 and from the 24 catalogue LPs", "thorough": "depth 2 (421 formulations per base LP) from S0q and the catalogue"},
     "evidence": {"states": ["formulations_compared", "instances"], "transitions": ["executions"], "nontrivial": ["instances_nontrivial"]},
     "assumptions": ["for the catalogue the claim is the relation over the transformation closure of these 24 problems only; their absolute optimum is not independently known",
@@ -258,11 +262,13 @@ PLANS["C19"] = {
     "title": "the esolver program reports exactly what the library computed",
     "rule": ("item = (LP instance of the named family written by the library as one of 8 file kinds (.lp .mps .lp.gz .mps.bz2 .lp.bz2 .mps.gz, extension-less with and without -L), option vector with <= dev non-default options out of "
              "-O sol[.gz|.bz2], -p k, -d k, -S, -P bits, -b/-B round trip); esolver is run as a child process; exit status, status line (against the Fourier-Motzkin truth of the problem as re-read from the file), and for OPTIMAL "
-             "the exact optimality certificate rebuilt from the listed non-zero VARS / REDUCED COST / PI / SLACK are checked; 32 malformed or unreadable inputs must give a non-zero exit without a signal; "
+             "the exact optimality certificate rebuilt from the listed non-zero VARS / REDUCED COST / PI / SLACK are checked; 32 malformed or unreadable inputs must give a non-zero exit without a signal; own=1: the harness renders the .lp/.mps text itself (no library code) under legal but unusual names (pct%d, sh%%re, x%5.2fy, v.1{a}, r%x, c%%1, lim&2, row~3) and the model is the instance itself; "
              "non-trivial = instance with a row and a non-zero coefficient"),
     "quick": [fam("esol-S0q1-dev0", "prod", "esol", {"fam": "S0q1", "dev": 0, "kinds": "basic", "bad": 1}, weight=3, crash_props=["C17", "C19"], esolver="prod", timeout=120),
+              fam("esol-S0q1-own", "prod", "esol", {"fam": "S0q1", "dev": 0, "kinds": "basic", "own": 1}, weight=3, crash_props=["C17", "C19"], esolver="prod", timeout=120),
               fam("esol-T-dev1", "prod", "esol", {"fam": "T", "dev": 1, "kinds": "basic", "tscale": 30}, weight=3, crash_props=["C17", "C19"], esolver="prod", timeout=300)],
-    "thorough": [fam("esol-S0q1-dev1-all", "prod", "esol", {"fam": "S0q1", "dev": 1, "kinds": "all", "bad": 1}, weight=10, crash_props=["C17", "C19"], esolver="prod", timeout=120),
+    "thorough": [fam("esol-S0q1-own-dev1", "prod", "esol", {"fam": "S0q1", "dev": 1, "kinds": "basic", "own": 1}, weight=6, crash_props=["C17", "C19"], esolver="prod", timeout=120),
+                 fam("esol-S0q1-dev1-all", "prod", "esol", {"fam": "S0q1", "dev": 1, "kinds": "all", "bad": 1}, weight=10, crash_props=["C17", "C19"], esolver="prod", timeout=120),
                  fam("esol-T-dev1-all", "prod", "esol", {"fam": "T", "dev": 1, "kinds": "all"}, weight=4, crash_props=["C17", "C19"], esolver="prod", timeout=600),
                  fam("esol-S0q1-san", "prod", "esol", {"fam": "S0q1", "dev": 0, "kinds": "basic", "bad": 1, "mlimit": 35184372088832}, weight=3, crash_props=["C17", "C19"], esolver="san", timeout=300, env={"ASAN_OPTIONS": "detect_leaks=0"}, range=[0, 4000])],
     "bounds": {"quick": "S0q1 x default options x {.lp,.mps} + 32 malformed inputs; targeted family T x <= 1 option", "thorough": "S0q1 x <= 1 option x 8 file kinds; T x <= 1 option x 8 kinds; ASan build of esolver on a slice"},
@@ -508,7 +514,7 @@ LEVELS = {
             "exhaustive enumeration of (matrix x column-replacement sequence) on the real LU code and of (LP x iteration stop) on the real simplex; oracle = exact multiplication back"),
     "C14": ("for every valid basis of every enumerated LP: load, write to a file, read into a fresh copy, compare statuses; write twice and query after writing to show the basis is not consumed",
             "exhaustive enumeration of all valid bases of each enumerated LP through the real basis writer/reader"),
-    "C15": ("20 meaning-preserving transformations (row/column permutations, scaling by powers of 2 and rationals, sign flips, slack introduction, bound-to-row conversion, duplicated rows ...) at depth <= d on every LP of the alphabets and on a catalogue of 24 structured LPs; status must be equal and values/solutions must map exactly",
+    "C15": ("22 meaning-preserving transformations (row/column permutations, scaling by powers of 2 and rationals, sign flips, column negation with mirrored bounds, slack introduction, bound-to-row conversion, duplicated rows ...) at depth <= d on every LP of the alphabets and on a catalogue of 24 structured LPs; status must be equal and values/solutions must map exactly",
             "bounded-depth exhaustive enumeration of transformation sequences x LP alphabet on the real solver; metamorphic oracle in exact arithmetic"),
     "C16": ("after every bounded history a copy is taken; the copy must pass the full query dump against the model, and then every single edit/solve/free applied to either of the two must leave the other's dump unchanged; precision-changing copies are compared value by value with correctly rounded conversions",
             "exhaustive enumeration of (history x copy point x subsequent operation on either side) on the real objects; oracle = full query-dump conformance"),
